@@ -1,20 +1,26 @@
 pub mod common;
 pub mod c01;
+pub mod c02;
+pub mod c03;
+pub mod c04;
+pub mod c05;
+pub mod c07;
+pub mod c10;
+pub mod c15;
 
 use crate::engine::Ctx;
 use serde_json::Value;
 
-pub fn run(id: &str, cx: &Ctx) -> bool {
-    match id {
-        "C01" => c01::run(cx),
-        _ => return false,
-    }
-    true
+macro_rules! table {
+    ($($id:expr => $m:ident),*) => {
+        pub fn run(id: &str, cx: &Ctx) -> bool {
+            match id { $($id => $m::run(cx),)* _ => return false }
+            true
+        }
+        pub fn replay(id: &str, check: &str, case: &Value) -> Option<Result<(), String>> {
+            match id { $($id => $m::replay(check, case),)* _ => None }
+        }
+        pub const IDS: &[&str] = &[$($id),*];
+    };
 }
-
-pub fn replay(id: &str, check: &str, case: &Value) -> Option<Result<(), String>> {
-    match id {
-        "C01" => c01::replay(check, case),
-        _ => None,
-    }
-}
+table!("C01" => c01, "C02" => c02, "C03" => c03, "C04" => c04, "C05" => c05, "C07" => c07, "C10" => c10, "C15" => c15);
